@@ -18,11 +18,12 @@ TheVals(line) == IF "vals" \in DOMAIN line THEN line.vals ELSE MVals
 RECURSIVE SchemaStrs(_)
 SchemaStrs(s) ==
    UNION {(IF Has(t, "enum") THEN UNION {StrLeaves(t.enum[i]) : i \in DOMAIN t.enum} ELSE {})
-          \cup (IF Has(t, "default") THEN StrLeaves(t.default) ELSE {}) : t \in SubSchemas(s)}
+          \cup (IF Has(t, "default") THEN StrLeaves(t.default) ELSE {})
+          \cup (IF Has(t, "discref") THEN {<<"k">>} ELSE {}) : t \in SubSchemas(s)}       \* the mapping key of "discref"
 
 ErrLists(r) == (IF "de" \in DOMAIN r THEN {r.de} ELSE {}) \cup (IF "me" \in DOMAIN r THEN {r.me} ELSE {})
                \cup (IF "fe" \in DOMAIN r THEN {r.fe} ELSE {})
-               \cup {r[k] : k \in {"ce", "cme", "te", "tme"} \cap DOMAIN r}
+               \cup {r[k] : k \in {"ce", "cme", "te", "tme", "qce", "pce", "re", "rme"} \cap DOMAIN r}
 
 Leaks(s, v, r) ==
    LET ms == StrLeaves(v) \ SchemaStrs(s) IN
